@@ -1,1 +1,437 @@
-(* C02 - to be filled *)
+(* C02: lemmas.  The first half relates emit_sff to the declarative description of Spec/C01.v and
+   is reused by C01. *)
+From Slinky Require Import Model.Types Model.Runtime Model.Style Model.Script Model.Writer Model.LdSem.
+From Slinky Require Import Spec.C09 Spec.C02.
+From Slinky Require Import Proofs.LdLemmas Proofs.C06 Proofs.C18 Proofs.C09.
+From Coq Require Import Lia ZArith Sorted.
+
+(* ====================================================================== *)
+(* induction principles for the mutual descriptions                        *)
+(* ====================================================================== *)
+
+Scheme Expands_mind := Induction for Expands Sort Prop
+  with ExpandsKeys_mind := Induction for ExpandsKeys Sort Prop
+  with ExpandsMembers_mind := Induction for ExpandsMembers Sort Prop.
+Combined Scheme Expands_mutind from Expands_mind, ExpandsKeys_mind, ExpandsMembers_mind.
+
+Scheme EntryStmts_mind := Induction for EntryStmts Sort Prop
+  with KeysStmts_mind := Induction for KeysStmts Sort Prop
+  with FileStmts_mind := Induction for FileStmts Sort Prop
+  with KidsStmts_mind := Induction for KidsStmts Sort Prop.
+Combined Scheme EntryStmts_mutind from EntryStmts_mind, KeysStmts_mind, FileStmts_mind, KidsStmts_mind.
+
+(* ====================================================================== *)
+(* emit_sff meets the description                                          *)
+(* ====================================================================== *)
+
+Section Sound.
+  Variable rt : runtime.
+  Variable sty : style.
+  Variable cfg : wcfg.
+  Variable seg : segment.
+  Variable sections : list string.
+
+  Local Notation ES := (EntryStmts rt sty cfg seg sections).
+  Local Notation KS := (KeysStmts rt sty cfg seg sections).
+  Local Notation FS := (FileStmts rt sty cfg seg sections).
+  Local Notation Kids := (KidsStmts rt sty cfg seg sections).
+  Local Notation Exp := (Expands cfg seg sections).
+  Local Notation ExpK := (ExpandsKeys cfg seg sections).
+  Local Notation ExpM := (ExpandsMembers cfg seg sections).
+
+  Lemma KS_app f base l1 s1 l2 s2 : KS f l1 base s1 -> KS f l2 base s2 -> KS f (l1 ++ l2) base (s1 ++ s2).
+  Proof.
+    intros H1 H2. revert s1 H1. induction l1 as [|k ks IH]; intros s1 H1.
+    - inversion H1; subst. exact H2.
+    - inversion H1; subst. rewrite <- app_assoc. simpl. constructor; [assumption|]. apply IH. assumption.
+  Qed.
+
+  (* the children of a group *)
+  Lemma kids_sound files k nb :
+    Forall (fun c => forall n stack section base ws s ws',
+                emit_sff rt sty cfg seg sections c n stack section base ws = Ok (s, ws') -> ES c section base s) files ->
+    forall ws s ws',
+      group_fold rt sty cfg seg sections k files nb ws = Ok (s, ws') -> Kids files k nb s.
+  Proof.
+    unfold group_fold. induction 1 as [|c r Hc Hr IH]; intros ws s ws' H.
+    - apply fold_out_nil in H. destruct H; subst. constructor.
+    - apply fold_out_cons in H. destruct H as [s1 [ws1 [s2 [E1 [E2 E]]]]]. subst.
+      constructor; [eapply Hc; eassumption | eapply IH; eassumption].
+  Qed.
+
+  (* emit_file *)
+  Lemma file_sound f k base :
+    Forall (fun c => forall n stack section base ws s ws',
+                emit_sff rt sty cfg seg sections c n stack section base ws = Ok (s, ws') -> ES c section base s)
+           (fi_files f) ->
+    forall ws s ws', emit_file_of rt sty cfg seg sections f k base ws = Ok (s, ws') -> FS f k base s.
+  Proof.
+    intros IH ws s ws' H. unfold emit_file_of, emit_file_gen in H.
+    destruct (should_emit rt (fi_conds f)) eqn:He; cbn [negb] in H.
+    2:{ apply ok_inj in H. inversion H; subst. apply FS_excluded. exact He. }
+    destruct (fi_kind f) eqn:Ek.
+    - apply bind_ok in H. destruct H as [p [Ep H]]. apply ok_inj in H. inversion H; subst.
+      replace [SInput (keeps (fi_keep f) k) (display (push base p)) None k (wildcard_sections seg)]
+        with (own_stmts rt sty seg f k base) by (unfold own_stmts; rewrite Ek, Ep; reflexivity).
+      apply FS_leaf; [exact He | congruence | unfold path_ok; rewrite Ek; eauto].
+    - apply bind_ok in H. destruct H as [p [Ep H]]. apply ok_inj in H. inversion H; subst.
+      replace [SInput (keeps (fi_keep f) k) (display (push base p)) (Some (fi_subfile f)) k (wildcard_sections seg)]
+        with (own_stmts rt sty seg f k base) by (unfold own_stmts; rewrite Ek, Ep; reflexivity).
+      apply FS_leaf; [exact He | congruence | unfold path_ok; rewrite Ek; eauto].
+    - apply ok_inj in H. inversion H; subst.
+      replace (if String.eqb (fi_section f) k then [SDotAdd (fi_pad_amount f)] else [])
+        with (own_stmts rt sty seg f k base) by (unfold own_stmts; rewrite Ek; reflexivity).
+      apply FS_leaf; [exact He | congruence | unfold path_ok; rewrite Ek; exact I].
+    - apply ok_inj in H. inversion H; subst.
+      replace (if String.eqb (fi_section f) k
+               then [SAssign false false true (linker_offset sty (fi_linker_offset_name f)) EDot] else [])
+        with (own_stmts rt sty seg f k base) by (unfold own_stmts; rewrite Ek; reflexivity).
+      apply FS_leaf; [exact He | congruence | unfold path_ok; rewrite Ek; exact I].
+    - apply bind_ok in H. destruct H as [d [Ed H]].
+      eapply FS_group; [exact He | exact Ek | exact Ed |]. eapply kids_sound; eassumption.
+  Qed.
+
+  (* the chain of sub-group expansions of one file *)
+  Lemma chain_sound f :
+    Forall (fun c => forall n stack section base ws s ws',
+                emit_sff rt sty cfg seg sections c n stack section base ws = Ok (s, ws') -> ES c section base s)
+           (fi_files f) ->
+    forall n stack section base ws s ws',
+      emit_sff rt sty cfg seg sections f n stack section base ws = Ok (s, ws') ->
+      exists keys, Exp f section keys /\ KS f keys base s.
+  Proof.
+    intro IHf. induction n as [|n IHn]; intros stack section base ws s ws' H.
+    - rewrite emit_sff_O in H. discriminate.
+    - rewrite emit_sff_S in H. destruct (mem_str section stack); [discriminate|].
+      unfold chain_step in H.
+      assert (Hkeys : forall ks ws s ws',
+                 fold_out (fun k ws =>
+                    do o1 <- emit_file_of rt sty cfg seg sections f k base ws;
+                    do o2 <- (if reference_partial cfg then Ok ([], snd o1) else
+                              match lookup k (sections_subgroups seg) with
+                              | Some others =>
+                                  fold_out (fun other ws => emit_sff rt sty cfg seg sections f n (section :: stack) other base ws)
+                                           others (snd o1)
+                              | None => Ok ([], snd o1)
+                              end);
+                    Ok ((fst o1 ++ fst o2)%list, snd o2)) ks ws = Ok (s, ws') ->
+                 exists keys, ExpK f ks keys /\ KS f keys base s).
+      { clear H ws s ws'. induction ks as [|k ks IHks]; intros ws s ws' H.
+        - apply fold_out_nil in H. destruct H; subst. exists []. split; constructor.
+        - apply fold_out_cons in H. destruct H as [s1 [ws1 [s2 [E1 [E2 E]]]]]. subst.
+          destruct (IHks _ _ _ E2) as [keys2 [X2 K2]].
+          apply bind_ok_out in E1. destruct E1 as [a [wa [Ea E1]]]. cbn [fst snd] in E1.
+          apply bind_ok_out in E1. destruct E1 as [b [wb [Eb E1]]]. cbn [fst snd] in E1.
+          assert (Hothers : forall others wa b wb,
+                     fold_out (fun other ws => emit_sff rt sty cfg seg sections f n (section :: stack) other base ws)
+                              others wa = Ok (b, wb) ->
+                     exists keysm, ExpM f others keysm /\ KS f keysm base b).
+          { induction others as [|o others IHo]; intros wa0 b0 wb0 Eb0.
+            - apply fold_out_nil in Eb0. destruct Eb0; subst. exists []. split; constructor.
+            - apply fold_out_cons in Eb0. destruct Eb0 as [t1 [w1 [t2 [F1 [F2 F]]]]]. subst.
+              destruct (IHn _ _ _ _ _ _ F1) as [ko [Xo Ko]].
+              destruct (IHo _ _ _ F2) as [kr [Xr Kr]].
+              exists (ko ++ kr). split; [constructor; assumption | apply KS_app; assumption]. }
+          assert (Hm : exists keysm, ExpM f (members cfg seg k) keysm /\ KS f keysm base b).
+          { unfold members. destruct (reference_partial cfg).
+            - apply ok_inj in Eb. inversion Eb; subst. exists []. split; constructor.
+            - destruct (lookup k (sections_subgroups seg)) as [others|].
+              + eapply Hothers. exact Eb.
+              + apply ok_inj in Eb. inversion Eb; subst. exists []. split; constructor. }
+          destruct Hm as [keysm [Xm Km]].
+          apply ok_inj in E1. inversion E1; subst.
+          exists (k :: keysm ++ keys2). split; [constructor; assumption|].
+          rewrite <- app_assoc. constructor; [eapply file_sound; eassumption|]. apply KS_app; assumption. }
+      destruct (Hkeys _ _ _ _ H) as [keys [X K]]. exists keys. split; [constructor; exact X | exact K].
+  Qed.
+
+  (* C02_order *)
+  Lemma emit_sff_sound f : forall n stack section base ws s ws',
+    emit_sff rt sty cfg seg sections f n stack section base ws = Ok (s, ws') -> ES f section base s.
+  Proof.
+    induction f as [p k sf pa sec lon so files d c kp IHfiles] using file_info_ind'.
+    intros n stack section base ws s ws' H.
+    destruct (chain_sound (FileInfo p k sf pa sec lon so files d c kp) IHfiles _ _ _ _ _ _ _ H) as [keys [X K]].
+    econstructor; eassumption.
+  Qed.
+
+  (* the files of a segment, for one section: the entries in list order under the segment's directory *)
+  Lemma emit_section_sound base_path section ws s ws' :
+    emit_section rt sty cfg seg sections base_path section ws = Ok (s, ws') ->
+    exists b, (exists b0, escape_path rt base_path = Ok b0 /\
+                          (if reference_partial cfg then b = b0
+                           else exists d, escape_path rt (sg_dir seg) = Ok d /\ b = push b0 d)) /\
+              Kids (sg_files seg) section b s.
+  Proof.
+    unfold emit_section. intro H. apply bind_ok in H. destruct H as [b0 [E0 H]].
+    apply bind_ok in H. destruct H as [b [Eb H]]. exists b. split.
+    - exists b0. split; [exact E0|]. destruct (reference_partial cfg).
+      + apply ok_inj in Eb. auto.
+      + apply bind_ok in Eb. destruct Eb as [d [Ed Eb]]. apply ok_inj in Eb. eauto.
+    - clear Eb. revert ws s ws' H. induction (sg_files seg) as [|f r IH]; intros ws s ws' H.
+      + apply fold_out_nil in H. destruct H; subst. constructor.
+      + apply fold_out_cons in H. destruct H as [s1 [ws1 [s2 [E1 [E2 E]]]]]. subst.
+        constructor; [eapply emit_sff_sound; eassumption | eapply IH; eassumption].
+  Qed.
+
+  (* ---------- reading the description ---------- *)
+
+  (* an entry that is not a group: one own_stmts per section of its expansion, in order *)
+  Lemma keys_leaf f keys base l :
+    KS f keys base l -> fi_kind f <> KGroup ->
+    l = flat_map (fun k => if should_emit rt (fi_conds f) then own_stmts rt sty seg f k base else []) keys.
+  Proof.
+    intros H Hk. induction H as [|f k ks base l1 l2 H1 H2 IH]; [reflexivity|].
+    cbn [flat_map]. rewrite <- IH by assumption. f_equal.
+    inversion H1; subst.
+    - rewrite H. reflexivity.
+    - rewrite H. reflexivity.
+    - contradiction.
+  Qed.
+
+  Lemma entry_leaf f section base l :
+    ES f section base l -> fi_kind f <> KGroup ->
+    exists keys, Exp f section keys /\
+      l = flat_map (fun k => if should_emit rt (fi_conds f) then own_stmts rt sty seg f k base else []) keys.
+  Proof.
+    intros H Hk. inversion H; subst. exists keys. split; [assumption|]. apply keys_leaf; assumption.
+  Qed.
+
+  (* an included group: for every section of its own expansion, in order, its children in list order *)
+  Lemma keys_group f keys base l d :
+    KS f keys base l -> should_emit rt (fi_conds f) = true -> fi_kind f = KGroup ->
+    escape_path rt (fi_dir f) = Ok d ->
+    exists ls, Forall2 (fun k lk => Kids (fi_files f) k (push base d) lk) keys ls /\ l = List.concat ls.
+  Proof.
+    intros H He Hk Hd. induction H as [|f k ks base l1 l2 H1 H2 IH].
+    - exists []. split; constructor.
+    - destruct (IH He Hk Hd) as [ls [F E]]. subst. exists (l1 :: ls). split; [|reflexivity].
+      constructor; [|exact F]. inversion H1; subst; congruence.
+  Qed.
+
+  (* the expansion: every section of [here], each directly followed by the expansions of its
+     sub-group members *)
+  Lemma expands_shape f section l :
+    Exp f section l ->
+    exists ls, Forall2 (fun k lk => exists lm, ExpM f (members cfg seg k) lm /\ lk = k :: lm)
+                       (here sections f section) ls /\ l = List.concat ls.
+  Proof.
+    intro H. inversion H as [s l0 HK]; subst. clear H.
+    induction HK as [|k ks l1 l2 Hm Hk IH].
+    - exists []. split; constructor.
+    - destruct IH as [ls [F E]]. subst. exists ((k :: l1) :: ls). split; [|reflexivity].
+      constructor; [exists l1; auto | exact F].
+  Qed.
+
+  Lemma members_shape f ms l :
+    ExpM f ms l -> exists ls, Forall2 (Exp f) ms ls /\ l = List.concat ls.
+  Proof.
+    induction 1 as [|s ss l1 l2 H1 H2 IH].
+    - exists []. split; constructor.
+    - destruct IH as [ls [F E]]. subst. exists (l1 :: ls). split; [constructor; assumption | reflexivity].
+  Qed.
+End Sound.
+
+(* ====================================================================== *)
+(* the output sections of a script, in order                               *)
+(* ====================================================================== *)
+
+Definition not_outsec (s : stmt) : Prop := match s with SOutSec _ _ _ _ _ _ => False | _ => True end.
+
+Lemma not_outsec_none l : Forall not_outsec l -> outsec_names l = [].
+Proof.
+  induction 1 as [|x r Hx Hr IH]; [reflexivity|]. unfold outsec_names in *. simpl. rewrite IH.
+  destruct x; simpl in *; try contradiction; reflexivity.
+Qed.
+
+Lemma outsec_names_app a b : outsec_names (a ++ b) = outsec_names a ++ outsec_names b.
+Proof. apply flat_map_app. Qed.
+
+Ltac no_leaf :=
+  repeat match goal with
+         | |- Forall _ (_ ++ _) => apply Forall_app; split
+         | |- Forall _ (match ?x with _ => _ end) => destruct x
+         | |- Forall _ (if ?x then _ else _) => destruct x
+         | |- Forall _ (_ :: _) => constructor
+         | |- Forall _ [] => constructor
+         | |- Forall _ (map _ _) => apply Forall_map_intro; intro
+         | |- Forall _ (flat_map _ _) => apply Forall_flat_map_intro; intro
+         | |- not_outsec _ => exact I
+         end.
+
+Lemma no_gp rt seg section : Forall not_outsec (gp_stmt rt seg section).
+Proof. unfold gp_stmt. no_leaf. Qed.
+Lemma no_section_start rt sty cfg seg section : Forall not_outsec (section_symbol_start rt sty cfg seg section).
+Proof. unfold section_symbol_start, opt_align. destruct (section_syms cfg); [|constructor]. no_leaf; apply no_gp. Qed.
+Lemma no_section_end sty cfg seg section : Forall not_outsec (section_symbol_end sty cfg seg section).
+Proof. unfold section_symbol_end, opt_align, sym_end_size. no_leaf. Qed.
+Lemma no_kind_start sty cfg seg noload : Forall not_outsec (sections_kind_start sty cfg seg noload).
+Proof. unfold sections_kind_start. no_leaf. Qed.
+Lemma no_kind_end sty cfg seg noload : Forall not_outsec (sections_kind_end sty cfg seg noload).
+Proof. unfold sections_kind_end, sym_end_size. no_leaf. Qed.
+Lemma no_seg_head st seg : Forall not_outsec (seg_head st seg).
+Proof. unfold seg_head. no_leaf. Qed.
+Lemma no_seg_foot st seg : Forall not_outsec (seg_foot st seg).
+Proof. unfold seg_foot, sym_end_size. cbv zeta. no_leaf. Qed.
+Lemma no_class_start st c cn : Forall not_outsec (class_start_stmts st c cn).
+Proof. unfold class_start_stmts. no_leaf. Qed.
+Lemma no_begin st : Forall not_outsec (begin_sections_body st).
+Proof. unfold begin_sections_body, hardcoded_gp_stmts. no_leaf. Qed.
+Lemma no_end st classes ws : Forall not_outsec (end_sections_body st classes ws).
+Proof. unfold end_sections_body, blank_if. cbv zeta. no_leaf. Qed.
+Lemma no_single_head st cfg seg : Forall not_outsec (single_head st cfg seg).
+Proof.
+  unfold single_head, hardcoded_gp_stmts. apply Forall_app; split.
+  - destruct (section_syms cfg); [|constructor]. destruct (hardcoded_gp_value st); no_leaf.
+  - no_leaf.
+Qed.
+
+Lemma write_segment_outsecs rt st cfg seg sections noload ws s ws' :
+  write_segment rt st cfg seg sections noload ws = Ok (s, ws') ->
+  outsec_names s = [("." ++ sg_name seg ++ (if noload then ".noload" else ""))%string].
+Proof.
+  intro H. apply write_segment_inv in H. destruct H as [body [_ E]]. subst.
+  rewrite !outsec_names_app, (not_outsec_none _ (no_kind_start _ _ _ _)), (not_outsec_none _ (no_kind_end _ _ _ _)).
+  reflexivity.
+Qed.
+
+Lemma add_segment_outsecs rt st cfg classes seg ws s ws' :
+  add_segment rt st cfg classes seg ws = Ok (s, ws') ->
+  outsec_names s = if should_emit rt (sg_conds seg) then segment_outsecs seg else [].
+Proof.
+  intro H. apply add_segment_inv in H.
+  destruct H as [[Hex [E _]] | [Hin [cls [ws1 [s1 [ws2 [s2 [Ec [E1 [E2 E]]]]]]]]]]; subst; rewrite ?Hex, ?Hin;
+    [reflexivity|].
+  assert (Hcls : Forall not_outsec cls).
+  { apply class_part_inv in Ec. destruct Ec as [[E _] | [cn [c [_ [_ [_ [E _]]]]]]]; subst;
+      [constructor | apply no_class_start]. }
+  rewrite !outsec_names_app, (not_outsec_none _ Hcls), (not_outsec_none _ (no_seg_head _ _)),
+    (not_outsec_none _ (no_seg_foot _ _)), (write_segment_outsecs _ _ _ _ _ _ _ _ _ E1),
+    (write_segment_outsecs _ _ _ _ _ _ _ _ _ E2).
+  unfold segment_outsecs. rewrite str_app_nil_r. reflexivity.
+Qed.
+
+Lemma fold_add_segment_outsecs rt st cfg classes segs : forall ws s ws',
+  fold_out (add_segment rt st cfg classes) segs ws = Ok (s, ws') ->
+  outsec_names s = flat_map segment_outsecs (emitted_segments rt segs).
+Proof.
+  induction segs as [|seg r IH]; intros ws s ws' H.
+  - apply fold_out_nil in H. destruct H; subst. reflexivity.
+  - apply fold_out_cons in H. destruct H as [s1 [ws1 [s2 [E1 [E2 E]]]]]. subst.
+    rewrite outsec_names_app, (add_segment_outsecs _ _ _ _ _ _ _ _ E1), (IH _ _ _ E2).
+    unfold emitted_segments. cbn [filter]. destruct (should_emit rt (sg_conds seg)); reflexivity.
+Qed.
+
+Lemma single_groups_outsecs rt st cfg seg sections noload rest : forall ws s ws',
+  single_groups rt st cfg seg sections noload rest ws = Ok (s, ws') -> outsec_names s = rest.
+Proof.
+  induction rest as [|section rest IH]; intros ws s ws' H.
+  - apply ok_inj in H. inversion H; subst. reflexivity.
+  - apply single_groups_cons in H. destruct H as [s1 [ws1 [s2 [E1 [E2 E]]]]]. subst.
+    rewrite !outsec_names_app, (not_outsec_none _ (no_section_start _ _ _ _ _)),
+      (not_outsec_none _ (no_section_end _ _ _ _)), (IH _ _ _ E2).
+    destruct rest; reflexivity.
+Qed.
+
+Lemma write_single_outsecs rt st cfg seg sections noload ws s ws' :
+  write_single_segment rt st cfg seg sections noload ws = Ok (s, ws') -> outsec_names s = sections.
+Proof.
+  intro H. apply write_single_segment_inv in H. destruct H as [body [Hb E]]. subst.
+  rewrite !outsec_names_app, (not_outsec_none _ (no_kind_start _ _ _ _)), (not_outsec_none _ (no_kind_end _ _ _ _)),
+    (single_groups_outsecs _ _ _ _ _ _ _ _ _ _ Hb), app_nil_r. reflexivity.
+Qed.
+
+(* C02_segments_in_order *)
+Lemma segments_in_order rt st cfg classes segs ws s ws' :
+  add_all_segments rt st cfg classes segs ws = Ok (s, ws') ->
+  exists body, s = [SSections body] /\
+    if single_segment_mode st
+    then exists seg, segs = [seg] /\ outsec_names body = alloc_sections seg ++ noload_sections seg
+    else outsec_names body = flat_map segment_outsecs (emitted_segments rt segs).
+Proof.
+  intro H. apply add_all_segments_inv in H.
+  destruct H as [[Hm [seg [Es H]]] | [Hm [body [Hb E]]]]; rewrite Hm.
+  - apply add_single_segment_inv in H. destruct H as [s1 [ws1 [s2 [E1 [E2 E]]]]]. subst.
+    eexists. split; [reflexivity|]. exists seg. split; [reflexivity|].
+    rewrite !outsec_names_app, (not_outsec_none _ (no_single_head _ _ _)), (not_outsec_none _ (no_end _ _ _)),
+      (write_single_outsecs _ _ _ _ _ _ _ _ _ E1), (write_single_outsecs _ _ _ _ _ _ _ _ _ E2).
+    simpl. rewrite app_nil_r. reflexivity.
+  - subst. eexists. split; [reflexivity|].
+    rewrite !outsec_names_app, (not_outsec_none _ (no_begin _)), (not_outsec_none _ (no_end _ _ _)),
+      (fold_add_segment_outsecs _ _ _ _ _ _ _ _ Hb), app_nil_r. reflexivity.
+Qed.
+
+(* C02_groups_in_order: the body of a half is one group per configured section, in list order *)
+Lemma groups_in_order rt st cfg seg sections rest : forall ws body ws',
+  part_groups rt st cfg seg sections rest ws = Ok (body, ws') ->
+  exists chunks, body = List.concat chunks /\
+                 Forall2 (is_group_of rt st cfg seg sections) rest chunks.
+Proof.
+  induction rest as [|section rest IH]; intros ws body ws' H.
+  - apply ok_inj in H. inversion H; subst. exists []. split; constructor.
+  - apply part_groups_cons in H. destruct H as [s1 [ws1 [s2 [E1 [E2 E]]]]]. subst.
+    destruct (IH _ _ _ E2) as [chunks [Ec F]]. subst.
+    exists ((section_symbol_start rt (linker_symbols_style st) cfg seg section ++ s1 ++
+             section_symbol_end (linker_symbols_style st) cfg seg section ++
+             (match rest with [] => [] | _ => [SBlank] end)) :: chunks).
+    split; [simpl; rewrite <- !app_assoc; reflexivity|]. constructor; [|exact F].
+    exists s1, ws, ws1, (match rest with [] => [] | _ => [SBlank] end).
+    split; [exact E1|]. split; [destruct rest; auto | reflexivity].
+Qed.
+
+(* ====================================================================== *)
+(* link level                                                              *)
+(* ====================================================================== *)
+
+Local Open Scope Z_scope.
+
+(* C02_addresses_monotone *)
+Lemma addresses_monotone env senv ext final vma sub outsec body ss :
+  nonneg_sizes (l_remaining (s_st ss)) ->
+  exists new,
+    l_placed (s_st (fold_left (exec_sec_stmt env senv ext final vma sub outsec) body ss)) =
+    l_placed (s_st ss) ++ new /\
+    nondecreasing (map pl_addr new) /\
+    s_off ss <= s_off (fold_left (exec_sec_stmt env senv ext final vma sub outsec) body ss).
+Proof.
+  intro Hn. destruct (sec_fold env ext senv final vma sub outsec body ss Hn) as [L [_ [new [P [_ S]]]]].
+  exists new. repeat split; assumption.
+Qed.
+
+(* what is placed by a later part of a body lies above what an earlier part placed *)
+Lemma addresses_monotone_split env senv ext final vma sub outsec pre post ss :
+  nonneg_sizes (l_remaining (s_st ss)) ->
+  exists new1 new2,
+    l_placed (s_st (fold_left (exec_sec_stmt env senv ext final vma sub outsec) (pre ++ post) ss)) =
+    l_placed (s_st ss) ++ new1 ++ new2 /\
+    l_placed (s_st (fold_left (exec_sec_stmt env senv ext final vma sub outsec) pre ss)) =
+    l_placed (s_st ss) ++ new1 /\
+    forall p q, In p new1 -> In q new2 -> pl_addr p <= pl_addr q.
+Proof.
+  intro Hn. rewrite fold_X_app.
+  destruct (sec_fold env ext senv final vma sub outsec pre ss Hn) as [L1 [N1 [new1 [P1 [R1 _]]]]].
+  destruct (sec_fold env ext senv final vma sub outsec post _ N1) as [L2 [_ [new2 [P2 [R2 _]]]]].
+  exists new1, new2. split; [rewrite P2, P1, app_assoc; reflexivity|]. split; [exact P1|].
+  intros p q Hp Hq. rewrite Forall_forall in R1, R2. specialize (R1 p Hp). specialize (R2 q Hq). lia.
+Qed.
+
+(* the ROM position never moves backwards: ALIGN rounds up, `__romPos += SIZEOF(sec)` adds the size
+   of a section laid out in this pass, which is not negative *)
+Lemma rom_add_monotone env senv ext final st sec o v :
+  sym_lookup "__romPos" st env ext = Some v ->
+  find_sec sec (l_secs st) = Some o -> 0 <= os_size o ->
+  lookup "__romPos" (l_syms (exec_top_stmt env senv ext final st (SRomAdd sec))) = Some (v + os_size o) /\
+  v <= v + os_size o.
+Proof.
+  intros Hv Ho Hs. cbn [exec_top_stmt]. rewrite Hv. unfold sec_lookup. rewrite Ho.
+  split; [apply lookup_set_sym_same | lia].
+Qed.
+
+Lemma rom_align_monotone env senv ext final st a v :
+  sym_lookup "__romPos" st env ext = Some v ->
+  lookup "__romPos" (l_syms (exec_top_stmt env senv ext final st (SAlign "__romPos" a))) =
+  Some (align_up v (Z.of_N a)) /\ v <= align_up v (Z.of_N a).
+Proof.
+  intro Hv. cbn [exec_top_stmt]. change (String.eqb "__romPos" ".") with false. cbv iota. rewrite Hv.
+  split; [apply lookup_set_sym_same | apply align_up_le].
+Qed.
